@@ -44,6 +44,8 @@ TRUSTED = [
     'harness/sched.py + harness/concdrv.py: one traced event per granted step, the step granted before the event executes; events on a fresh '
     'private value file (create/write/close) are treated as commuting with other clients in the systematic enumeration',
     'the Python reference dictionary (harness/props/c05.py RefCache) as the reading of the property text',
+    'overlaps inside the pickling of a key (key_pickling_overlap) are produced with real threads gated by events in the key\'s own pickling hook; they are '
+    'decided by the monitor only (the machine of Conc.v starts a call at its first SQLite statement)',
 ]
 ASSUMPTIONS = [
     'the clock is frozen during a run (no expiry instant passes inside a program); items are stored with ttl None, +100 s, 0 or -1 s',
@@ -1141,6 +1143,11 @@ RULE = ('programs of 2-4 clients x 1-3 calls from {set, add, incr, decr, get, po
         'Fresh interpreters (started from scratch with different PYTHONHASHSEED, nothing inherited) on one FanoutCache / Cache directory with text '
         'keys: run one after the other their calls give the results of a dictionary; run at the same time every increment of a shared counter is '
         'counted once and every key is added by exactly one of them.  '
+        'Calls that overlap inside the PICKLING of a key (where the scheduler has no switch point): real threads sharing one Cache / FanoutCache (1, 2 '
+        'shards) / Index, each with its own key that must be pickled (5 shapes around a component whose __reduce__ / __reduce_ex__ / __getstate__ waits '
+        'on an event) and reusing its key object; A\'s set / get / delete / pop / add / incr is suspended inside the pickling of its key while B runs 1-3 '
+        'complete calls, or both are suspended and released in either order; afterwards each thread\'s calls with its own key object and the contents '
+        'must be those of a dictionary (the keys differ, so every result is determined).  '
         'non-trivial = calls of at least two clients overlap in time; distinct = distinct (program, setup, executed schedule, mode).')
 
 
@@ -1337,6 +1344,382 @@ def fresh_interpreters(ctx, res, stats, thorough):
     stats['fresh_interpreter_cases'] = n
 
 
+# ---------------------------------------------------------------------------
+# Threads sharing ONE object whose calls overlap INSIDE the pickling of a key.  The deterministic scheduler switches at SQLite / file events
+# only; a key is converted before the first of them.  A key component whose pickling hook (__reduce__ / __reduce_ex__ / __getstate__) waits
+# on an event is an ordinary picklable key, and lets a real second thread run complete calls at exactly that point.  No timing: every wait
+# is on an explicit event, the timeouts only guard against hangs.
+
+class KeyPart:
+    """hashable, picklable key component; equal iff same class and name.  Pickling the part NAMED in `armed` waits once at its n-th pickling."""
+    armed = {}          # name -> [countdown, reached Event, release Event]
+    guard = threading.Lock()
+
+    def __init__(self, name):
+        self.name = name
+
+    def _pickling(self):
+        with KeyPart.guard:
+            g = KeyPart.armed.get(self.name)
+            if g is None:
+                return
+            g[0] -= 1
+            if g[0] > 0:
+                return
+            del KeyPart.armed[self.name]
+        g[1].set()
+        if not g[2].wait(30):
+            raise RuntimeError('harness: the gate of key part %r was never released' % (self.name,))
+
+    def __eq__(self, o):
+        return type(o) is type(self) and o.name == self.name
+
+    def __ne__(self, o):
+        return not self.__eq__(o)
+
+    def __hash__(self):
+        return hash((type(self).__name__, self.name))
+
+    def __repr__(self):
+        return '%s(%r)' % (type(self).__name__, self.name)
+
+
+class KeyPartReduce(KeyPart):
+    def __reduce__(self):
+        self._pickling()
+        return (type(self), (self.name,))
+
+
+class KeyPartReduceEx(KeyPart):
+    def __reduce_ex__(self, protocol):
+        self._pickling()
+        return (type(self), (self.name,))
+
+
+class KeyPartState(KeyPart):
+    def __getstate__(self):
+        self._pickling()
+        return {'name': self.name}
+
+    def __setstate__(self, st):
+        self.name = st['name']
+
+
+KP_GATES = {'reduce': KeyPartReduce, 'reduce_ex': KeyPartReduceEx, 'getstate': KeyPartState}
+KP_SHAPES = {'tuple_last': lambda q: ('job', q), 'tuple_first': lambda q: (q, 7), 'nested': lambda q: (1, ('n', q), 2.5), 'bare': lambda q: q,
+             'frozenset': lambda q: frozenset([q])}
+KP_CONTAINERS = ['Cache', 'FanoutCache1', 'FanoutCache2', 'Index']
+KP_OPS = {'Cache': ['set', 'get', 'delete', 'pop', 'add', 'incr'], 'FanoutCache': ['set', 'get', 'delete', 'pop', 'add', 'incr'],
+          'Index': ['set', 'get', 'delete', 'pop']}
+KP_MODES = ['b_complete', 'both_ab', 'both_ba']      # B runs complete calls while A is inside pickling / both inside, A resp. B released first
+KP_POSTS = [['get', 'delete', 'get'], ['get', 'pop', 'get'], ['get', 'incr', 'get'], ['delete', 'get'], ['pop', 'get'], ['get', 'set', 'get'],
+            ['add', 'get'], ['incr', 'get'], ['get']]
+KP_MISS = '<miss>'
+
+
+class _KWorker:
+    """a persistent thread (its own SQLite connection, the SAME Cache / FanoutCache / Index object)"""
+
+    def __init__(self):
+        import queue
+        self.q = queue.Queue()
+        self.t = threading.Thread(target=self._loop, daemon=True)
+        self.t.start()
+
+    def _loop(self):
+        while True:
+            job = self.q.get()
+            if job is None:
+                return
+            f, box, done = job
+            try:
+                box['r'] = f()
+            except BaseException as e:  # noqa
+                box['exc'] = e
+            finally:
+                done.set()
+
+    def start(self, f):
+        box, done = {}, threading.Event()
+        self.q.put((f, box, done))
+        return box, done
+
+    def stop(self):
+        self.q.put(None)
+        self.t.join(5)
+
+
+class KPEnv:
+    def __init__(self, directory, container):
+        self.container = container
+        self.cont = container.rstrip('0123456789')
+        kw = dict(disk_min_file_size=8)
+        if self.cont == 'Cache':
+            self.obj = diskcache.Cache(directory, **kw)
+        elif self.cont == 'FanoutCache':
+            self.obj = diskcache.FanoutCache(directory, shards=int(container[len('FanoutCache'):]), **kw)
+        else:
+            self.obj = diskcache.Index.fromcache(diskcache.Cache(directory, **kw))
+        self.workers = {'A': _KWorker(), 'B': _KWorker()}
+        self.broken = False
+
+    def close(self):
+        for w in self.workers.values():
+            w.stop()
+        try:
+            (self.obj.cache if self.cont == 'Index' else self.obj).close()
+        except Exception:  # noqa
+            pass
+
+
+def kp_call(cont, o, op, k, v):
+    """one call through the shared object, result in the vocabulary of kp_ref"""
+    try:
+        if cont == 'Index':
+            if op == 'set':
+                o[k] = v
+                return True
+            if op == 'get':
+                return o.get(k, KP_MISS)
+            if op == 'delete':
+                try:
+                    del o[k]
+                    return True
+                except KeyError:
+                    return False
+            if op == 'pop':
+                return o.pop(k, KP_MISS)
+        else:
+            if op == 'set':
+                return o.set(k, v, retry=True)
+            if op == 'add':
+                return o.add(k, v, retry=True)
+            if op == 'get':
+                return o.get(k, default=KP_MISS, retry=True)
+            if op == 'delete':
+                return o.delete(k, retry=True)
+            if op == 'pop':
+                return o.pop(k, default=KP_MISS, retry=True)
+            if op == 'incr':
+                return o.incr(k, v, default=0, retry=True)
+        raise ValueError(op)
+    except RuntimeError:
+        raise
+    except Exception as e:  # noqa
+        return '<raised %s: %s>' % (type(e).__name__, str(e)[:60])
+
+
+def kp_ref(d, op, k, v):
+    """the reference: a plain dictionary keyed by the key VALUE (KeyPart equality)"""
+    if op == 'set':
+        d[k] = v
+        return True
+    if op == 'add':
+        if k in d:
+            return False
+        d[k] = v
+        return True
+    if op == 'get':
+        return d.get(k, KP_MISS)
+    if op == 'delete':
+        return d.pop(k, KP_MISS) is not KP_MISS
+    if op == 'pop':
+        return d.pop(k, KP_MISS)
+    if op == 'incr':
+        d[k] = d.get(k, 0) + v
+        return d[k]
+    raise ValueError(op)
+
+
+_kp_n = [0]
+
+
+def pickling_overlap_case(env, p):
+    """One scenario on one shared object.  Thread A owns key KA, thread B key KB (different keys that must be pickled, each thread REUSES its
+    key object for all its calls).  A's call p['op_a'] is suspended inside the pickling of KA (at the p['nth'] pickling of the component);
+    meanwhile B runs its calls p['ops_b'] with KB to completion (mode b_complete) or is suspended inside the pickling of KB as well and the
+    two are released in the order given by the mode.  Afterwards, nothing in flight, each thread runs p['post'] with its own key object.
+    The keys differ, so every call has exactly one admissible result: that of a dictionary.  -> (problems, info)"""
+    _kp_n[0] += 1
+    n = _kp_n[0]
+    cls = KP_GATES[p['gate']]
+    part = {'A': cls('a%d' % n), 'B': cls('b%d' % n)}
+    key = {'A': KP_SHAPES[p['shape_a']](part['A']), 'B': KP_SHAPES[p['shape_b']](part['B'])}
+    o, cont = env.obj, env.cont
+    ref = {}
+    seq = [0]
+    log, problems = [], []
+    info = {'reached': False}
+
+    def value(who, op):
+        seq[0] += 1
+        if op == 'incr':
+            return 3 + seq[0]
+        if p['values'] == 'int':
+            return (1000 if who == 'A' else 2000) + seq[0]
+        return '%s-value-%d-' % (who, seq[0]) + ('a' if who == 'A' else 'b') * 30        # above the file threshold
+
+    def job(who, ops):
+        """-> (thunk running the calls in order on the shared object, list collecting (op, value, result))"""
+        plan = [(op, value(who, op)) for op in ops]
+        out = []
+
+        def run():
+            for op, v in plan:
+                out.append((op, v, kp_call(cont, o, op, key[who], v)))
+        return run, plan, out
+
+    def settle(who, plan, out, phase):
+        """compare the results of one thread's calls with the dictionary"""
+        for i, (op, v) in enumerate(plan):
+            want = kp_ref(ref, op, key[who], v)
+            got = out[i][2] if i < len(out) else '<not executed>'
+            log.append('%s %s: %s(%r%s) -> %r' % (phase, who, op, key[who], '' if op in ('get', 'delete', 'pop') else ', %r' % (v,), got))
+            if not (type(got) is type(want) and got == want) and not problems:
+                problems.append(('shared_object_key_crosstalk:%s:%s' % (cont, op),
+                                 '%s shared by two threads, keys %r (thread A) and %r (thread B): %s, thread %s: %s with its own key object returned %r, '
+                                 'a dictionary gives %r' % (env.container, key['A'], key['B'], phase, who, op, got, want)))
+
+    def sync(who, ops, phase):
+        run, plan, out = job(who, ops)
+        box, done = env.workers[who].start(run)
+        if not done.wait(60):
+            env.broken = True
+            problems.append(('shared_object_call_hangs', '%s: %s of thread %s did not return within 60 s' % (env.container, ops, who)))
+            return False
+        if 'exc' in box:
+            raise box['exc']
+        settle(who, plan, out, phase)
+        return True
+
+    def arm(who):
+        g = [p['nth'], threading.Event(), threading.Event()]
+        with KeyPart.guard:
+            KeyPart.armed[part[who].name] = g
+        return g
+
+    def disarm(who):
+        with KeyPart.guard:
+            KeyPart.armed.pop(part[who].name, None)
+
+    try:
+        if p['preset']:
+            if not sync('A', ['set'], 'preset') or not sync('B', ['set'], 'preset'):
+                return problems, info
+        # the overlap
+        ga = arm('A')
+        run_a, plan_a, out_a = job('A', [p['op_a']])
+        box_a, done_a = env.workers['A'].start(run_a)
+        reached_a = ga[1].wait(20)
+        if not reached_a:
+            disarm('A')
+        if p['mode'] == 'b_complete':
+            info['reached'] = reached_a
+            ok = sync('B', p['ops_b'], 'while A is inside pickling')
+            ga[2].set()
+            if not done_a.wait(60):
+                env.broken = True
+                problems.append(('shared_object_call_hangs', '%s: %s of thread A did not return within 60 s after its key was pickled' % (env.container, p['op_a'])))
+                return problems, info
+            if not ok:
+                return problems, info
+            settle('A', plan_a, out_a, 'suspended call')
+        else:
+            gb = arm('B')
+            run_b, plan_b, out_b = job('B', p['ops_b'])
+            box_b, done_b = env.workers['B'].start(run_b)
+            reached_b = gb[1].wait(20)
+            if not reached_b:
+                disarm('B')
+            info['reached'] = reached_a and reached_b
+            order = [(ga, done_a, 'A'), (gb, done_b, 'B')]
+            if p['mode'] == 'both_ba':
+                order.reverse()
+            for g, done, who in order:
+                g[2].set()
+                if not done.wait(60):
+                    env.broken = True
+                    problems.append(('shared_object_call_hangs', '%s: the call of thread %s did not return within 60 s after its key was pickled' % (env.container, who)))
+                    ga[2].set()
+                    gb[2].set()
+                    return problems, info
+            for box in (box_a, box_b):
+                if 'exc' in box:
+                    raise box['exc']
+            settle('A', plan_a, out_a, 'suspended call')
+            settle('B', plan_b, out_b, 'suspended call')
+        if 'exc' in box_a:
+            raise box_a['exc']
+        # nothing in flight from here on: each thread uses its own key object again
+        for who in (('B', 'A') if p['post_first'] == 'B' else ('A', 'B')):
+            if not sync(who, p['post'], 'afterwards'):
+                return problems, info
+        # contents
+        if not problems:
+            try:
+                keys = list(o)
+                n_items = len(o)
+            except Exception as e:  # noqa
+                keys, n_items = ['<raised %r>' % e], -1
+            if n_items != len(ref) or len(keys) != len(ref) or not all(k in ref for k in keys):
+                problems.append(('shared_object_key_crosstalk:%s:contents' % cont,
+                                 '%s shared by two threads, keys %r and %r: afterwards it holds %d items with keys %r, a dictionary holds %r'
+                                 % (env.container, key['A'], key['B'], n_items, keys, list(ref))))
+    finally:
+        disarm('A')
+        disarm('B')
+        info['log'] = log
+        if not env.broken:
+            try:
+                o.clear()
+            except Exception:  # noqa
+                pass
+    return problems, info
+
+
+def pickling_overlaps(ctx, res, stats, thorough):
+    """Cache, FanoutCache (1 and 2 shards) and Index shared by two threads; every suspended call x every mode systematically, the other
+    dimensions (key shapes, pickling hook, which pickling of the call, B's calls, preset entries, what follows, value kind) drawn at random."""
+    import random
+    rng = random.Random(ctx.seed * 7919 + 11)
+    st = stats.setdefault('pickling_overlaps', {'scenarios': 0, 'suspended_inside_pickling': 0})
+    rounds = 12 if thorough else 2
+    seen = set()
+    for container in KP_CONTAINERS:
+        env = KPEnv(ctx.scratch('c05kp'), container)
+        ops = KP_OPS[env.cont]
+        try:
+            for rnd in range(rounds):
+                for gate in sorted(KP_GATES):
+                    for mode in KP_MODES:
+                        for op_a in ops:
+                            nb = 1 if mode != 'b_complete' else rng.choice([1, 1, 2, 3])
+                            post = [x for x in rng.choice(KP_POSTS) if x in ops]
+                            ops_b = [rng.choice(ops) for _ in range(nb)]
+                            p = {'check': 'key_pickling_overlap', 'container': container, 'gate': gate, 'mode': mode, 'op_a': op_a, 'ops_b': ops_b,
+                                 'shape_a': rng.choice(sorted(KP_SHAPES)), 'shape_b': rng.choice(sorted(KP_SHAPES)),
+                                 'nth': rng.choice([1, 1, 2]) if env.cont == 'FanoutCache' else 1, 'preset': rng.random() < 0.6, 'post': post or ['get'],
+                                 'post_first': rng.choice('AB'), 'values': 'int' if 'incr' in [op_a] + ops_b + post or rng.random() < 0.4 else 'text'}
+                            problems, info = pickling_overlap_case(env, p)
+                            st['scenarios'] += 1
+                            st['suspended_inside_pickling'] += int(bool(info.get('reached')))
+                            res.count(['key-pickling-overlap', sorted(p.items())], nontrivial=bool(info.get('reached')))
+                            stats['ops'][op_a] = stats['ops'].get(op_a, 0) + 1
+                            for sig, desc in problems:
+                                if sig not in seen:
+                                    seen.add(sig)
+                                    res.violations.append(fw.Violation(sig, desc + '   [calls: ' + '; '.join(info.get('log', [])[-12:]) + ']', dict(p)))
+                            if env.broken:
+                                env.close()
+                                env = KPEnv(ctx.scratch('c05kp'), container)
+                    if enough(res):
+                        return
+        finally:
+            env.close()
+    res.sample({'check': 'key_pickling_overlap', 'containers': KP_CONTAINERS, 'scenarios': st['scenarios'],
+                'suspended_inside_pickling': st['suspended_inside_pickling']})
+
+
 def run(ctx, big=False):
     res = fw.Result()
     res.rule = RULE
@@ -1358,9 +1741,11 @@ def run(ctx, big=False):
             soak(ctx, res, stats)
     ctx.deadline = None
     if not enough(res):
+        pickling_overlaps(ctx, res, stats, thorough)
+    if not enough(res):
         fresh_interpreters(ctx, res, stats, thorough)
     res.traces_validated = 0
-    res.extra.update({'fresh_interpreter_cases': stats.get('fresh_interpreter_cases'),
+    res.extra.update({'fresh_interpreter_cases': stats.get('fresh_interpreter_cases'), 'pickling_overlaps': stats.get('pickling_overlaps'),
         'runs': stats['runs'], 'programs_by_clients': stats['by_clients'], 'programs_by_calls': stats['by_calls'], 'runs_by_driver_mode': stats['by_mode'],
         'op_histogram': stats['ops'], 'runs_with_contention_reached': stats['contended'], 'calls_that_timed_out': stats['timeouts'],
         'runs_with_file_backed_values': stats['file_backed_runs'], 'lookups_that_looked_again': stats['lookups_that_looked_again'],
@@ -1647,6 +2032,20 @@ def replay(payload):
             return not problems
         finally:
             ctx.cleanup()
+    if case.get('check') == 'key_pickling_overlap':
+        d = tempfile.mkdtemp(prefix='c05r-')
+        env = KPEnv(d, case['container'])
+        try:
+            problems, info = pickling_overlap_case(env, case)
+            print('suspended inside pickling: %s' % info.get('reached'))
+            for l in info.get('log', []):
+                print('  ' + l)
+            for sig, desc in problems:
+                print(sig, desc)
+            return not problems
+        finally:
+            env.close()
+            shutil.rmtree(d, ignore_errors=True)
     if case.get('check') != 'schedule':
         print(payload)
         return True
